@@ -504,6 +504,13 @@ def consumer(ex, st, call, args):
                     else:
                         yield s3, acc + 1, None
         return _consume(ex, st, T, on_item, lambda s, acc: _ret(s, NONE), 0)
+    if m == "len" and len(args) == 1:
+        # ExactSizeIterator::len(&it): the number of remaining items; the iterator itself is not advanced
+        try:
+            n_items = len(drain_pure(ex, st.clone(), T))
+        except (NotConcrete, Unanalysable):
+            return NotImplemented
+        return _ret(st, ("const", n_items))
     if m == "sum" and len(args) == 1:
         def add(s_, acc, it):
             it = ex.canon(s_, it)
